@@ -541,8 +541,8 @@ def trainer_sweeps(ctx, exe, nds, disp=None, corpus=()):
         ctx.hist("train_classes", k); ctx.hist("train_examples", n); ctx.hist("train_kernel", kern); ctx.hist("train_eps", eps)
         for F in forms:
             for bias in (0, 1):
-                if bias and eps != "1e-3" and ctx.quick:
-                    continue
+                if bias and eps != "1e-3":
+                    continue          # the Rprop offset loop at tighter accuracies takes minutes per run
                 base = (0, -1, 0, 256)
                 cfgs = [base, (1, -1, 0, 256), (0, 2 * n, 0, 256), (1, 3 * n + 1, 1, 256), (1, n * n, r.range(2, 1 << 20), 3),
                         (0, -1, r.range(2, 1 << 20), 1), (1, 2 * n, 1, 256)]
